@@ -406,6 +406,11 @@ static void harness_scenario(int s0)
 	PROP(r == 0, "harness: scenario index within range");
 
 	qb_log_init("t", LOG_USER, LOG_INFO);
+#ifdef SITE_BASE
+	/* state construction: SITE_BASE dynamic call sites were created (and are of no further interest) before the history
+	 * starts, so that the three sites of the scenario land on the last slot of a 16-element bin / across two bins */
+	callsite_arr_next = SITE_BASE;
+#endif
 	/* syslog: opened, enabled, FILE "*" up to LOG_INFO (what qb_log_init documents) */
 	M[0].slot = QB_LOG_SYSLOG; M[0].open = 1; M[0].enabled = 1; M[0].nf = 1; M[0].f[0] = 6;
 	int32_t slot = qb_log_custom_open(rec_logger, NULL, NULL, NULL);
